@@ -272,17 +272,22 @@ def c04_row(row, ref_map, qry_map, params, frag=None):
     return sorted(set(bad)), total
 
 
-def c04(run, params, events):
+def c04(run, params, events, pr=None, pq=None):
+    """pr / pq: the two CMAP files parsed independently of the project's reader ({id: (length, coordinates)}): the score is recomputed from THESE maps
+    (the reference as written, the query trimmed as the statement of C17 says), so a reader that loses or renumbers labels shows"""
+    from types import SimpleNamespace
     viol = []
     refs = {m.moleculeId: m for m in (run.reference_maps or [])}
     qrys = {m.moleculeId: m for m in (run.query_maps or [])}
+    raw_refs = {i: SimpleNamespace(moleculeId=i, positions=list(v[1]), length=v[0]) for i, v in (pr or {}).items() if v[1]}
+    raw_qrys = {i: SimpleNamespace(moleculeId=i, positions=[c - v[1][0] for c in v[1]], length=v[1][-1] - v[1][0] + 1) for i, v in (pq or {}).items() if v[1]}
     seen = set()
 
     def judge(row, where, frag=None):
         if id(row) in seen or row.referenceId not in refs or row.queryId not in qrys:
             return
         seen.add(id(row))
-        bad, total = c04_row(row, refs[row.referenceId], qrys[row.queryId], params, frag)
+        bad, total = c04_row(row, raw_refs.get(row.referenceId, refs[row.referenceId]), raw_qrys.get(row.queryId, qrys[row.queryId]), params, frag)
         for b in bad:
             mechs = conflict_mechanisms(events, row.queryId) if 'counted_twice' in b else []
             known = [m for m in mechs if m[1]]
